@@ -6,6 +6,7 @@ CONSTANTS
   NC = 2
   NTP = 5
   NT = 2
+  MaxHeads = 3
   MaxWants = 2
   Modes = {"detailed"}
   IncTag = {FALSE, TRUE}
